@@ -4,6 +4,9 @@ import (
 	"bytes"
 	"encoding/binary"
 	"io"
+	"strconv"
+	"strings"
+	"time"
 
 	"golang.org/x/crypto/ssh/agent"
 )
@@ -20,6 +23,10 @@ const (
 	FaultCloseAfter  = "close_after"  // honest reply, then the connection is closed
 	FaultTruncBody   = "trunc"        // well-delimited but truncated honest body
 )
+
+// SlowPrefix marks what is not a fault at all: "slow:<seconds>" makes the peer take that long (on the clock
+// of the run; simulated inside a bubble) before it answers honestly.
+const SlowPrefix = "slow:"
 
 // AllFaults lists the fault kinds.
 var AllFaults = []string{FaultFail, FaultEmpty, FaultGarbage, FaultWrongType, FaultOversize,
@@ -47,6 +54,8 @@ type Peer struct {
 	OnRequest func(reqIndex int, kind string, req []byte)
 	// OnReply is called for every reply body that was delivered completely.
 	OnReply func(kind string, req, reply []byte)
+	// OnSlow is called before a slow (but honest) reply is delayed.
+	OnSlow func(kind string, secs int64)
 
 	reqIndex int
 	perKind  map[string]int
@@ -169,6 +178,15 @@ func (p *Peer) Serve(c io.ReadWriteCloser) int {
 				}
 			}
 			return Process(p.Agent, req)
+		}
+		if fi >= 0 && strings.HasPrefix(fault, SlowPrefix) {
+			p.fired[fi] = true
+			secs, _ := strconv.ParseInt(fault[len(SlowPrefix):], 10, 64)
+			if p.OnSlow != nil {
+				p.OnSlow(kind, secs)
+			}
+			time.Sleep(time.Duration(secs) * time.Second)
+			fi = -1
 		}
 		if fi >= 0 {
 			p.fired[fi] = true
